@@ -29,6 +29,7 @@ SETUP = """
 :- dynamic(c05f/1).
 :- dynamic(c05g/1).
 :- dynamic(c05d/2).
+:- dynamic(c05h/2).
 c05s(0, v0). c05s(1, v1). c05s(-1, vm1). c05s(2, v2). c05s(5, v5). c05s(97, v97). c05s(255, v255).
 c05s(2147483647, a). c05s(2147483649, b). c05s(36028797018963967, c). c05s(36028797018963968, d).
 c05s(-36028797018963968, e). c05s(-36028797018963969, f). c05s(9223372036854775808, g). c05s(18446744073709551616, h).
@@ -89,6 +90,13 @@ def consumers(n):
         'format-d': 'phrase(format_("~d", [N]), R)',
         'assert-call-literal': 'retractall(c05f(_)), assertz(c05f(N)), ( c05f(%s) -> R = y ; R = n )' % L,
         'retract-literal': 'retractall(c05f(_)), assertz(c05f(%s)), ( retract(c05f(N)) -> R = y ; R = n )' % L,
+        # the boxed value becomes the first argument of a clause added to a dynamic predicate that already has clauses
+        'assert-among-others-call-literal': ('retractall(c05h(_, _)), assertz(c05h(-7777, a)), assertz(c05h(foo, b)), assertz(c05h(N, c)), '
+                                             'assertz(c05h(bar, d)), findall(V, c05h(%s, V), R)' % L),
+        'assert-among-others-clause-literal': ('retractall(c05h(_, _)), assertz(c05h(-7777, a)), assertz(c05h(g(1), b)), assertz(c05h(N, c)), '
+                                               'findall(V, clause(c05h(%s, V), true), R)' % L),
+        'assert-among-others-retract-literal': ('retractall(c05h(_, _)), assertz(c05h(4242, a)), assertz(c05h(N, c)), assertz(c05h("s", d)), '
+                                                '( retract(c05h(%s, V)) -> R = V ; R = none )' % L),
         'clause-static': '( c05s(N, R) -> true ; R = none )',
         'clause-dynamic': '( c05d(N, R) -> true ; R = none )',
     }
